@@ -141,14 +141,36 @@ func runStreamPlan(c *pbt.Case, p StreamPlan) {
 		sv.unstall()
 		time.Sleep(time.Duration(p.WaitMs[bi]) * time.Millisecond)
 	}
-	// the loop brings the service to the primary's position
-	deadline := time.Now().Add(20 * time.Second)
+	// "Repeated syncs on an idle primary bring the service to the primary's position":
+	// the loop makes one pass (at most 256 files per database) per change it is told of,
+	// so a backlog that is longer than that when the last commit is announced waits for
+	// the next announcement. The application therefore goes on committing now and then;
+	// after enough such passes for the backlog the service must be at the primary's position.
+	passes := int(k)/litefs.MaxBackupLTXFileN + 4
+	deadline := time.Now().Add(30 * time.Second)
+	nudgeAt := time.Now().Add(2 * time.Second)
+	nudges := 0
 	for svcPos() != expect {
 		if got := pr.Pos(dbName); got != expect {
 			c.Failf("C14/primary-moved-without-reason", "while waiting for the backup: the primary is at %s, its last own commit was %s (the service is at %s)", got, expect, svcPos())
 		}
 		if time.Now().After(deadline) {
-			c.Failf("C14/liveness/never-in-sync", "20 s after the last commit the service is at %s, the primary at %s", svcPos(), expect)
+			c.Failf("C14/liveness/never-in-sync", "30 s and %d further commits after the bursts the service is at %s, the primary at %s", nudges, svcPos(), expect)
+		}
+		if time.Now().After(nudgeAt) && nudges < passes {
+			nudges++
+			k++
+			wr, err := pr.Write(dbName, pager.WalTx{Tx: pager.Tx{Writes: []pager.Write{{Pgno: 2, Ver: 1000 + k}}, NewSize: maxU32(2, p.Tx.NewSize), Fill: p.Tx.Fill}})
+			if err != nil {
+				c.Failf("C14/harness", "%v", err)
+			}
+			if wr.Err != nil || !wr.Committed {
+				c.Failf("C14/op-error", "commit while waiting for the backup: a valid transaction on the primary was refused: %v", wr.Err)
+			}
+			pr.CloseConns()
+			expect = wr.Pos
+			nudgeAt = time.Now().Add(2 * time.Second)
+			c.Label("commit-to-wake-the-backup-loop")
 		}
 		time.Sleep(2 * time.Millisecond)
 	}
